@@ -1,4 +1,272 @@
-(* Executable interface of the Proto layer (op codes 4000..4099). Stub until the layer is built. *)
-From A1 Require Import Base.Res.
+(* Executable interface of the Proto layer (op codes 4000..4199).
+   The Rust harness (harness/a1h/src/proto.rs) implements the same ops on the real crate. *)
+From A1 Require Import Base.Res Proto.Wire Proto.Rw Proto.Schema.
 Local Open Scope Z_scope.
-Definition run_proto (m : mode) (op : Z) (a : list Z) : list Z := [-1].
+
+Definition zs (l : list N) : list Z := map Z.of_N l.
+Definition ns (l : list Z) : list N := map Z.to_N l.
+
+Definition enc_res {A} (f : A -> list Z) (r : res (A * list N)) : list Z :=
+  match r with
+  | Ok (a, rest) => 0 :: Z.of_nat (length rest) :: f a
+  | Err e => [1; Z.of_N e]
+  | Panic p => [2; Z.of_N p]
+  end.
+
+(* write then read back with a tail: nbytes :: bytes ++ enc_res *)
+Definition wr_rd {A} (bytes : list N) (tail : list Z) (rd : list N -> res (A * list N)) (f : A -> list Z) :=
+  Z.of_nat (length bytes) :: zs bytes ++ enc_res f (rd (bytes ++ ns tail)).
+
+Definition fmt_of_z (z : Z) : format :=
+  match z with 0 => VarInt | 1 => Fixed64 | 2 => LengthDelimited | _ => Fixed32 end.
+
+(** * The zoo: the types generated from the ASN.1 modules embedded in proto.rs,
+      in the order generated write_seq/read_seq visit the components *)
+Definition r (t : pty) := (false, t).
+Definition o (t : pty) := (true, t).
+Definition t_inner := TSeq [r (TInt KU16); o TStr].
+Definition t_color := TEnum 3.
+Definition t_ch2 := TChoice [TInt KU8; TBytes].
+Definition t_ch := TChoice [TInt KI16; TBool; TStr; t_inner; t_ch2; t_color].
+Definition t_tup := TSeq [r (TInt KU16)].
+Definition t_tupl := TSeq [r (TSeqOf TStr)].
+
+Definition zoo_ty (id : Z) : option pty :=
+  match id with
+  | 0 => Some (TSeq [r (TInt KU8); r (TInt KI8); r (TInt KU16); r (TInt KI16); r (TInt KU32); r (TInt KI32);
+                     r (TInt KU64); r (TInt KI64); r (TInt KU64)])
+  | 1 => Some t_inner
+  | 2 => Some t_color
+  | 3 => Some (TSeq [r TBool; r TStr; r TBytes; r TBits; r t_color; r TStr])
+  | 4 => Some (TSeq [o (TInt KU8); o TStr; o TBool; o TBytes; o t_inner; r (TInt KI8); o t_color; o (TInt KI64)])
+  | 5 => Some (TSeq [r (TSeqOf (TInt KI32)); r (TSeqOf TStr); r (TSeqOf t_inner); o (TSeqOf (TInt KU8)); r TBool;
+                     r (TSeqOf (TInt KU16))])
+  | 6 => Some t_ch2
+  | 7 => Some t_ch
+  | 8 => Some (TSeq [r TBool; r t_ch; r (TInt KU8); o t_ch2])
+  | 9 => Some (TSeq [r (TSeqOf t_ch2); r (TSeqOf t_color); r (TSeqOf TBool); r (TSeqOf TBytes)])
+  | 10 => Some t_tup
+  | 11 => Some t_tupl
+  | 12 => Some (TSeq [r t_tup; o t_tup; r t_tupl])
+  | 13 => Some (TSeq [r (TSeq [o (TSeq [o (TInt KU8)]); r TBool]); r TStr])
+  | 14 => Some (visit_ty zoo_set)
+  | 15 => Some (TSeq [r (TInt KU8); r TNull; r (TInt KU8)])
+  | 16 => Some (TSeq [o TNull; o (TInt KU8); r (TInt KU8)])
+  | 17 => Some (TChoice [TNull; TInt KU8])
+  | 18 => Some (TSeq [r TBits])
+  | 19 => Some (TSeq [r (TSeqOf (TSeqOf (TInt KU8))); r (TInt KU8)])
+  | 20 => Some (TChoice [TSeqOf (TInt KU8); TInt KU8])
+  | _ => None
+  end.
+
+(* declared form (differs from the visit order only for the SET with explicit tags) *)
+Definition zoo_decl (id : Z) : option decl :=
+  match id with
+  | 14 => Some zoo_set
+  | _ => match zoo_ty id with Some t => Some (DPlain t) | None => None end
+  end.
+
+(* types of the ProtobufEq tie (hand-written #[derive(ProtobufEq)] types in proto.rs) *)
+Definition peq_ty (id : Z) : option pty :=
+  match id with
+  | 0 => Some (TSeq [o (TInt KU64); o TStr; o TBool; r (TSeqOf (TInt KI32)); o TBytes; r TBits; o t_inner;
+                     o (TSeqOf TStr)])
+  | 1 => Some (TChoice [TInt KU64; t_inner; TStr])
+  | _ => None
+  end.
+
+(** * Values as integer lists *)
+Fixpoint take_n {A} (n : nat) (l : list A) : option (list A * list A) :=
+  match n, l with
+  | O, _ => Some ([], l)
+  | S n', x :: l' => match take_n n' l' with Some (a, b) => Some (x :: a, b) | None => None end
+  | S _, [] => None
+  end.
+
+Fixpoint dec_val (t : pty) (a : list Z) {struct t} : option (pval * list Z) :=
+  match t with
+  | TBool => match a with b :: a' => Some (VBool (negb (b =? 0)), a') | _ => None end
+  | TInt _ => match a with z :: a' => Some (VInt z, a') | _ => None end
+  | TStr => match a with
+            | n :: a' => match take_n (Z.to_nat n) a' with Some (s, a'') => Some (VStr (ns s), a'') | None => None end
+            | _ => None end
+  | TBytes => match a with
+              | n :: a' => match take_n (Z.to_nat n) a' with Some (s, a'') => Some (VBytes (ns s), a'') | None => None end
+              | _ => None end
+  | TBits => match a with
+             | bl :: n :: a' =>
+                 match take_n (Z.to_nat n) a' with
+                 | Some (s, a'') => let '(bytes, k) := bitvec_from_bytes (ns s) (Z.to_N bl) in Some (VBits bytes k, a'')
+                 | None => None end
+             | _ => None end
+  | TNull => Some (VNull, a)
+  | TEnum _ => match a with i :: a' => Some (VEnum (Z.to_N i), a') | _ => None end
+  | TSeq fs =>
+      match (fix fields (fs : list (bool * pty)) (a : list Z) {struct fs} : option (list pval * list Z) :=
+               match fs with
+               | [] => Some ([], a)
+               | (false, t) :: fs' =>
+                   match dec_val t a with
+                   | Some (v, a') => match fields fs' a' with Some (vs, a'') => Some (v :: vs, a'') | None => None end
+                   | None => None end
+               | (true, t) :: fs' =>
+                   match a with
+                   | 0 :: a' => match fields fs' a' with Some (vs, a'') => Some (VOpt None :: vs, a'') | None => None end
+                   | _ :: a' =>
+                       match dec_val t a' with
+                       | Some (v, a'') =>
+                           match fields fs' a'' with Some (vs, a3) => Some (VOpt (Some v) :: vs, a3) | None => None end
+                       | None => None end
+                   | [] => None
+                   end
+               end) fs a with
+      | Some (vs, a') => Some (VSeq vs, a')
+      | None => None
+      end
+  | TSeqOf t' =>
+      match a with
+      | n :: a' =>
+          match (fix elems (k : nat) (a : list Z) {struct k} : option (list pval * list Z) :=
+                   match k with
+                   | O => Some ([], a)
+                   | S k' => match dec_val t' a with
+                             | Some (v, a') => match elems k' a' with Some (vs, a'') => Some (v :: vs, a'') | None => None end
+                             | None => None end
+                   end) (Z.to_nat n) a' with
+          | Some (vs, a'') => Some (VList vs, a'')
+          | None => None
+          end
+      | _ => None
+      end
+  | TChoice alts =>
+      match a with
+      | i :: a' =>
+          (fix pick (alts : list pty) (j : nat) {struct alts} : option (pval * list Z) :=
+             match alts, j with
+             | t :: _, O => match dec_val t a' with Some (v, a'') => Some (VChoice (Z.to_N i) v, a'') | None => None end
+             | _ :: rest, S j' => pick rest j'
+             | [], _ => None
+             end) alts (Z.to_nat i)
+      | _ => None
+      end
+  end.
+
+Definition enc_bytes (l : list N) : list Z := Z.of_nat (length l) :: zs l.
+
+Fixpoint enc_val (v : pval) : list Z :=
+  match v with
+  | VBool b => [if b then 1 else 0]
+  | VInt z => [z]
+  | VStr s => enc_bytes s
+  | VBytes l => enc_bytes l
+  | VBits bytes n => Z.of_N n :: enc_bytes bytes
+  | VNull => []
+  | VEnum i => [Z.of_N i]
+  | VSeq vs => flat_map enc_val vs
+  | VOpt None => [0]
+  | VOpt (Some v) => 1 :: enc_val v
+  | VList vs => Z.of_nat (length vs) :: flat_map enc_val vs
+  | VChoice i v => Z.of_N i :: enc_val v
+  end.
+
+Definition out_res {A} (f : A -> list Z) (x : res A) : list Z :=
+  match x with
+  | Ok a => 0 :: f a
+  | Err e => [1; Z.of_N e]
+  | Panic p => [2; Z.of_N p]
+  end.
+
+Definition op_write_read (m : mode) (t : pty) (capmode : Z) (v : pval) : list Z :=
+  match pwrite_vec m t v with
+  | Ok bs =>
+      let n := N.of_nat (length bs) in
+      let cap := match capmode with 0 => n | 1 => (n + 3)%N | _ => (n - 1)%N end in
+      0 :: enc_bytes bs
+        ++ out_res enc_bytes (pwrite_slice m cap t v)
+        ++ out_res enc_val (pread m t bs)
+  | Err e => [1; Z.of_N e]
+  | Panic p => [2; Z.of_N p]
+  end.
+
+Definition run_proto (m : mode) (op : Z) (a : list Z) : list Z :=
+  match op, a with
+  (* primitive round trips *)
+  | 4001, v :: tail => wr_rd (write_varint (Z.to_N v)) tail read_varint (fun v => [Z.of_N v])
+  | 4002, v :: tail => wr_rd (write_sint32 v) tail read_sint32 (fun v => [v])
+  | 4003, v :: tail => wr_rd (write_sint64 v) tail read_sint64 (fun v => [v])
+  | 4004, f :: w :: tail =>
+      wr_rd (write_tag (Z.to_N f) (fmt_of_z w)) tail read_tag (fun '(f, w) => [Z.of_N f; Z.of_N (format_code w)])
+  | 4005, v :: tail => wr_rd (write_uint32 (Z.to_N v)) tail read_uint32 (fun v => [Z.of_N v])
+  | 4006, b :: tail => wr_rd (write_bool (negb (b =? 0))) tail read_bool (fun b : bool => [if b then 1 else 0])
+  | 4007, v :: tail => wr_rd (write_sfixed32 v) tail read_sfixed32 (fun v => [v])
+  | 4008, bytes => let w := write_bytes (ns bytes) in Z.of_nat (length w) :: zs w
+  | 4009, bl :: bytes =>
+      (* BitVec::from_bytes(bytes, bl).to_vec_with_trailing_bit_len(), then from_vec_with_trailing_bit_len *)
+      let '(b, k) := bitvec_from_bytes (ns bytes) (Z.to_N bl) in
+      match bitvec_payload m b k with
+      | Ok p => 0 :: enc_bytes p ++ out_res (fun '(b', k') => Z.of_N k' :: enc_bytes b') (bitvec_from_trailing m p)
+      | Err e => [1; Z.of_N e]
+      | Panic p => [2; Z.of_N p]
+      end
+  (* raw reads of arbitrary bytes *)
+  | 4010, bytes => enc_res (fun v => [Z.of_N v]) (read_varint (ns bytes))
+  | 4011, bytes => enc_res (fun '(f, w) => [Z.of_N f; Z.of_N (format_code w)]) (read_tag (ns bytes))
+  | 4012, bytes => enc_res (fun v => [v]) (read_sint32 (ns bytes))
+  | 4013, bytes => enc_res (fun v => [v]) (read_sint64 (ns bytes))
+  | 4014, bytes => enc_res enc_bytes (read_string (ns bytes))
+  | 4015, bytes => enc_res (fun '(b, k) => Z.of_N k :: enc_bytes b) (read_bit_vec m (ns bytes))
+  | 4016, bytes => enc_res (fun v => [Z.of_N v]) (read_uint32 (ns bytes))
+  | 4017, bytes => enc_res (fun b : bool => [if b then 1 else 0]) (read_bool (ns bytes))
+  | 4018, bytes => enc_res (fun v => [v]) (read_sfixed32 (ns bytes))
+  (* Writer / Reader over the zoo *)
+  | 4050, tid :: capmode :: vals =>
+      match zoo_ty tid with
+      | Some t => match dec_val t vals with
+                  | Some (v, []) => op_write_read m t capmode v
+                  | _ => [-2]
+                  end
+      | None => [-1]
+      end
+  | 4060, tid :: _hint :: bytes =>
+      match zoo_ty tid with
+      | Some t => out_res enc_val (pread m t (ns bytes))
+      | None => [-1]
+      end
+  (* ProtobufEq *)
+  | 4070, pid :: vals =>
+      match peq_ty pid with
+      | Some t => match dec_val t vals with
+                  | Some (v1, rest) =>
+                      match dec_val t rest with
+                      | Some (v2, []) => [0; if peq t v1 v2 then 1 else 0]
+                      | _ => [-2]
+                      end
+                  | None => [-2]
+                  end
+      | None => [-1]
+      end
+  (* C18: abstract schema of a zoo type, and the reference decoder on the model's bytes *)
+  | 4101, [tid] =>
+      match zoo_decl tid with
+      | Some d => 0 :: dump_msg (schema_of_decl d)
+      | None => [-1]
+      end
+  | 4110, tid :: vals =>
+      match zoo_decl tid, zoo_ty tid with
+      | Some d, Some t =>
+          match dec_val t vals with
+          | Some (v, []) =>
+              match pwrite_vec m t v with
+              | Ok bs => match pb_decode (schema_of_decl d) bs with
+                         | Some pv => 0 :: dump_pbmsg pv
+                         | None => [1]
+                         end
+              | Err e => [3; Z.of_N e]
+              | Panic p => [2; Z.of_N p]
+              end
+          | _ => [-2]
+          end
+      | _, _ => [-1]
+      end
+  | _, _ => [-1]
+  end.
